@@ -94,7 +94,9 @@ void harness(void) {
 	uint8_t t = ND_u8("type"); VASSUME(t < 0x80);
 	uint8_t msg[4] = {3, 0, 99, t};
 	unsigned aid = ND_u8("aid");
+	verif_tags_armed = true;
 	bool admitted = bidib_node_try_send(addr, t, msg, aid);
+	verif_tags_armed = false;
 	bool expect = (NHELD == 0) && (sum + size_of(t) <= LIMIT);
 	VASSERT(admitted == expect, "admitted iff nothing is held and the budget has room");
 	VASSERT(wire_n == 0, "try_send itself puts nothing on the wire");
@@ -124,7 +126,9 @@ void harness(void) {
 #else
 	/* ---- bidib_node_state_update with an arbitrary uplink type at an arbitrary later time ---- */
 	uint8_t r = ND_u8("resp");
+	verif_tags_armed = true;
 	unsigned got_aid = bidib_node_state_update(addr, r);
+	verif_tags_armed = false;
 	/* reference: minimal number of head removals k_ref */
 	int k_ref = 0; bool matched = false; unsigned want_aid = 0;
 	for (int i = 0; i < NRESP; i++) {
